@@ -28,6 +28,9 @@ CLAIMS = {
  'C16': ('model_checking',
    "TLA+ spec Cleartext (dash escaping, body framing, the reader's termination rule, unescape+trim, the RFC signed form, signer/verifier hashing) is model-checked over every text of <=6 (thorough 7) symbols over {dash, space, tab, CR, LF, other} with a sensitivity run (signer that does not trim => SignerVerifierAgree violated); TLC emits every text <=5 (thorough 6) with escaped form, signed form and representability; the harness signs each with v4/v6 keys through sign/new/new_many, checks text()/signed_text()/verify in memory and after the armored round trip, checks the emitted body cannot terminate early, swaps in every single-symbol neighbour (verification must fail exactly when the signed form differs), and runs a header matrix.",
    'DESIGN.md 5/C16', TECH),
+ 'C06': ('model_checking',
+   "TLA+ spec SigIfaces states for every signing interface and every applicable verification interface which octets are hashed (composed from the TextCanon and Cleartext operators) and TLC checks equality for every text <=6 symbols over {dash, space, tab, CR, LF, other} (sensitivity: untrimmed cleartext signer => Complete violated); the TextCanon machines are model-checked in the same run. TLC emits every text <=4 (thorough 5) and the applicability matrix and evaluates the oracle on random long texts with CR/LF at the 512/8192 edges; the harness runs each through all signing interfaces (detached, SignatureConfig, chunked hasher, builder 1..3 signers x binary|text x binary|utf8, cleartext) and all verification interfaces incl. binary/armored round trips, rotating Ed25519 v4/v6, ECDSA, RSA x three hashes, with 8 representatives of 'other' incl. blank look-alikes; plus certificate self-signatures.",
+   'DESIGN.md 5/C06', TECH),
 }
 checks = []
 for p in props:
